@@ -56,6 +56,7 @@ class Entry:
         self.selfparam = None
         self.nocanary = None
         self.rename = None
+        self.fragment = None  # (start snippet, header text `name(params) -> Ret`)
 
     def block(self, kind):
         return [b for b in self.blocks if b.kind == kind]
@@ -94,6 +95,11 @@ def parse_vc(path):
                     cur.deref += rest.split()
                 elif word == "rename":
                     cur.rename = rest
+                elif word == "fragment":
+                    m = re.match(r'"(.*)"\s*=>\s*(\w+)\s*(\(.*\))\s*->\s*(.*)$', rest)
+                    if not m:
+                        raise SystemExit(f"{path}:{ln}: //@fragment needs '\"first statement\" => name(params) -> Ret'")
+                    cur.fragment = (m.group(1).replace('\\"', '"'), m.group(2), m.group(3), m.group(4).strip())
                 elif word == "nocanary":
                     cur.nocanary = rest or "unspecified"
                 elif word == "selfparam":
@@ -322,7 +328,33 @@ def emit_fn(out, entry, mode, stats, canary=False):
         return dict(kind="vc", file=os.path.relpath(b.file, VERIF), line=(b.lines[0][1] if b.lines else b.line),
                     fn=entry.id, block=b.kind + (" " + b.arg if b.arg else ""))
 
-    if entry.ret and ret_lo is not None:
+    blo = bo + 1  # first token of the text under contract
+    if entry.fragment:
+        # N23: the function under contract is the TAIL of the repository function, from the statement that starts with the
+        # given snippet to the closing brace; what comes before it (and the original signature) is dropped and the free
+        # variables of the tail become parameters, with the types written in the directive. Every parameter must be bound by
+        # a `let` in the dropped part (checked here); if a declared type is not the one rustc infers the unit does not compile.
+        snip, fname, fparams, fret = entry.fragment
+        r_ = find_snippet(sf, blo, last, snip)
+        if r_ is None:
+            raise LostAnchor(f"{entry.id}: fragment start {snip!r} not found")
+        blo = r_[0]
+        for pm in re.finditer(r"(?:^|[(,])\s*(?:mut\s+)?(\w+)\s*:", fparams):
+            if find_snippet(sf, bo + 1, blo, "let " + pm.group(1)) is None and find_snippet(sf, bo + 1, blo, "let mut " + pm.group(1)) is None:
+                raise LostAnchor(f"{entry.id}: fragment parameter {pm.group(1)} is not bound by a let in the dropped part")
+        sigb_ = entry.block("sig")
+        sig_text_ = sigb_[0].text() if sigb_ else ""
+        if canary:
+            sig_text_ = add_false_ensures(sig_text_)
+        rt = f"({entry.ret}: {fret})" if entry.ret else fret
+        hdr = f"fn {fname}{'__canary' if canary else ''}{fparams} -> {rt}\n"
+        edits.append((kw, kw, hdr, dict(kind="gen", fn=entry.id, norm="N23")))
+        o_ = vc_origin(sigb_[0]) if sigb_ else dict(kind="gen", fn=entry.id)
+        edits.append((kw, blo, sig_text_.rstrip("\n") + "\n{\n", o_))
+        stats.count("N23")
+    if entry.fragment:
+        pass
+    elif entry.ret and ret_lo is not None:
         # wrap return type
         rt_last = max(i for i in range(ret_lo, ret_hi) if toks[i].kind not in (WS, COMMENT))
         edits.append((ret_lo, ret_lo, f"({entry.ret}: ", dict(kind="gen", fn=entry.id)))
@@ -331,10 +363,10 @@ def emit_fn(out, entry, mode, stats, canary=False):
     sig_text = sigb[0].text() if sigb else ""
     if canary:
         sig_text = add_false_ensures(sig_text)
-    if sig_text.strip():
+    if sig_text.strip() and not entry.fragment:
         o = vc_origin(sigb[0]) if sigb else dict(kind="gen", fn=entry.id)
         edits.append((bo, bo, "\n" + sig_text.rstrip("\n") + "\n", o))
-    if entry.rename or canary:
+    if (entry.rename or canary) and not entry.fragment:
         newname = (entry.rename or entry.fn) + ("__canary" if canary else "")
         edits.append((name_i, name_i + 1, newname, dict(kind="gen", fn=entry.id)))
 
@@ -361,7 +393,7 @@ def emit_fn(out, entry, mode, stats, canary=False):
     if mode == "decl":
         edits.append((bo, last + 1, "{ unimplemented!() }", dict(kind="gen", fn=entry.id)))
     else:
-        body = [i for i in range(bo + 1, last) if toks[i].kind not in (WS, COMMENT)]
+        body = [i for i in range(blo, last) if toks[i].kind not in (WS, COMMENT)]
         # loops
         loops = []
         for i in body:
@@ -558,7 +590,7 @@ def emit_fn(out, entry, mode, stats, canary=False):
             m = re.match(r'"(.*)"\s*(?:#(\d+))?$', b.arg)
             if not m:
                 raise SystemExit(f"{b.file}:{b.line}: //@{b.kind} needs a quoted snippet")
-            r = find_snippet(sf, bo + 1, last, m.group(1).replace('\\"', '"'), int(m.group(2) or 1))
+            r = find_snippet(sf, blo, last, m.group(1).replace('\\"', '"'), int(m.group(2) or 1))
             if r is None:
                 raise LostAnchor(f"{entry.id}: snippet {m.group(1)!r} not found")
             pos = r[0] if b.kind == "before" else r[1] + 1
@@ -568,7 +600,7 @@ def emit_fn(out, entry, mode, stats, canary=False):
             m = re.match(r'"(.*)"\s*(?:#(\d+))?$', b.arg)
             if not m:
                 raise SystemExit(f"{b.file}:{b.line}: //@{b.kind} needs a quoted arm pattern")
-            r = find_snippet(sf, bo + 1, last, m.group(1).replace('\\"', '"'), int(m.group(2) or 1))
+            r = find_snippet(sf, blo, last, m.group(1).replace('\\"', '"'), int(m.group(2) or 1))
             if r is None:
                 raise LostAnchor(f"{entry.id}: arm {m.group(1)!r} not found")
             j = r[1] + 1
@@ -591,7 +623,7 @@ def emit_fn(out, entry, mode, stats, canary=False):
                 tag = tag.rstrip("*")
                 occ = 1
                 while True:
-                    r = find_snippet(sf, bo + 1, last, frm, occ)
+                    r = find_snippet(sf, blo, last, frm, occ)
                     if r is None:
                         if occ == 1 and not optional:
                             raise LostAnchor(f"{entry.id}: subst source {frm!r} not found")
@@ -657,7 +689,7 @@ def emit_fn(out, entry, mode, stats, canary=False):
         # tryexpand (N18): `E?` => `match E { Ok(v) => v, Err(e) => return Err(From::from(e)) }` -- the meaning the Rust
         # reference gives to `?` on a Result; Verus itself does not connect `?` with the From implementation
         for snip, occ in entry.tryexpand:
-            r_ = find_snippet(sf, bo + 1, last, snip, occ)
+            r_ = find_snippet(sf, blo, last, snip, occ)
             if r_ is None:
                 raise LostAnchor(f"{entry.id}: tryexpand source {snip!r} not found")
             edits.append((r_[0], r_[0], "(match ", dict(kind="gen", fn=entry.id, norm="N18")))
@@ -670,7 +702,7 @@ def emit_fn(out, entry, mode, stats, canary=False):
             m = re.match(r'"(.*)"\s*(?:#(\d+))?$', b.arg)
             if not m or not m.group(1).rstrip().endswith("?"):
                 raise SystemExit(f"{b.file}:{b.line}: //@tryproof needs a quoted snippet ending in ?")
-            r_ = find_snippet(sf, bo + 1, last, m.group(1).replace('\\"', '"'), int(m.group(2) or 1))
+            r_ = find_snippet(sf, blo, last, m.group(1).replace('\\"', '"'), int(m.group(2) or 1))
             if r_ is None:
                 raise LostAnchor(f"{entry.id}: tryproof source {m.group(1)!r} not found")
             edits.append((r_[0], r_[0], "(match ", dict(kind="gen", fn=entry.id, norm="N18")))
@@ -739,15 +771,15 @@ def emit_fn(out, entry, mode, stats, canary=False):
                         stats.count("N3")
         # bodystart: ghost declarations at the very start of the body (visible to a wraptail proof)
         for b in entry.block("bodystart"):
-            edits.append((bo + 1, bo + 1, "\n" + b.text().rstrip("\n") + "\n", vc_origin(b)))
+            edits.append((blo, blo, "\n" + b.text().rstrip("\n") + "\n", vc_origin(b)))
         # wraptail
         for b in entry.block("wraptail"):
             r = b.arg or "__r"
-            edits.append((bo + 1, bo + 1, f" let {r} = {{", dict(kind="gen", fn=entry.id)))
+            edits.append((blo, blo, f" let {r} = {{", dict(kind="gen", fn=entry.id)))
             edits.append((last, last, "};\n" + b.text().rstrip("\n") + f"\n{r}\n", vc_origin(b)))
     if getattr(entry, "_rename_self", False) and mode != "decl":
         covered = [(lo, hi) for lo, hi, _, _ in edits if hi > lo]
-        for i in range(bo + 1, last):
+        for i in range(blo, last):
             if toks[i].kind == IDENT and toks[i].text == "self" and not any(lo <= i < hi for lo, hi in covered):
                 edits.append((i, i + 1, entry.selfparam, dict(kind="gen", fn=entry.id, norm="N21")))
     # N1 / N8: drop attributes, visibility in front of fn
@@ -778,9 +810,11 @@ def emit_fn(out, entry, mode, stats, canary=False):
         out.add(strip_module_paths(seg, stats), kind="repo", file=entry.file, line=sf.line_of(toks[pos].start), fn=entry.id)
     out.add("\n", kind="gen")
     if not canary:
-        text = sf.text[toks[kw].start:toks[last].end]
-        stats.functions.append(dict(id=entry.id, mode=mode, file=entry.file, fn=entry.fn, name=(entry.rename or entry.fn), container=entry.container,
-                                    lines=[sf.line_of(toks[kw].start), sf.line_of(toks[last].end)],
+        first_tok = blo if entry.fragment else kw
+        text = sf.text[toks[first_tok].start:toks[last].end]
+        stats.functions.append(dict(id=entry.id, mode=mode, file=entry.file, fn=entry.fn, name=(entry.fragment[1] if entry.fragment else (entry.rename or entry.fn)), container=entry.container,
+                                    fragment=bool(entry.fragment),
+                                    lines=[sf.line_of(toks[first_tok].start), sf.line_of(toks[last].end)],
                                     sha256=hashlib.sha256(text.encode()).hexdigest(), own=entry.own))
 
 
